@@ -9,6 +9,12 @@ CHECKS = {
                      "CrossHair reports 'Confirmed over all paths' for id == md5(canonical JSON), order/spelling independence, type-exact injectivity, no aliasing of the caller's mapping, JSON round-trip stability.",
                 note="Trusted: CrossHair's int/str/json models (every counterexample is replayed on CPython; golden ids and table ids re-checked with real md5 + C encoder), MD5 collision freeness. Outside: ints beyond 1000, arbitrary Unicode, float formatting.",
                 ref="DESIGN.md §4 C01"),
+    "C06": dict(tech="SMT-backed symbolic execution (CrossHair+z3) of Project._find_job_ids / _SearchIndexer / filterparse against a per-job reference evaluator",
+                text="Bounded proof: for 2-job corpora over a 10-value typed leaf domain (bool/int/int-valued float/float/str/None, solver-enumerated by index; ints fully symbolic for order operators), four value shapes, "
+                     "both namespaces and all key/operator spellings, every atomic operator template and ten $and/$or/$not templates (depth <= 3) return exactly the jobs the per-job oracle accepts; "
+                     "independence of other jobs and set-algebra laws are asserted directly. Every harness must come back 'Confirmed over all paths'.",
+                note="Trusted: CrossHair path enumeration, the oracle vflib/refs.match (Python == semantics, operators need the key present). Corpus injected at Project._build_index/_job_dirs. Outside: $where, arbitrary regexes, symbolic floats, >2 jobs (3 in thorough).",
+                ref="DESIGN.md §4 C06"),
 }
 NOT_YET = {}
 
